@@ -1016,3 +1016,182 @@ def compilex(e, argnames, P=None):
     env = dict(tabs)
     env["_sx"] = lambda v, b: ((v & ((1 << b) - 1)) - (1 << b)) if (v >> (b - 1)) & 1 else (v & ((1 << b) - 1))
     return eval("lambda %s: %s" % (", ".join(names), src), env), names
+
+
+# ---------------------------------------------------------------- typed evaluation (C integer conversions, opt-in)
+
+def _tyinfo(t):
+    """(bits, signed) of a C integer type name, or None"""
+    if not t:
+        return None
+    t = t.replace("const ", "").replace("volatile ", "").strip()
+    if t in _UNSIGNED:
+        return (_UNSIGNED[t], False)
+    if t in _SIGNED:
+        return (_SIGNED[t], True)
+    if t in ("enum", ) or t.startswith("enum "):
+        return (32, False)
+    if t in ("ev_off_t", "off_t", "long long", "int64_t"):
+        return (64, True)
+    if t in ("unsigned long long", "ev_uintptr_t", "uintptr_t"):
+        return (64, False)
+    if t in ("unsigned char", "ev_uint8_t"):
+        return (8, False)
+    if t in ("unsigned short",):
+        return (16, False)
+    return None
+
+
+def _conv(v, ty):
+    bits, signed = ty
+    v &= (1 << bits) - 1
+    if signed and v >> (bits - 1):
+        v -= 1 << bits
+    return v
+
+
+def _promote(a, b):
+    """usual arithmetic conversions on (bits, signed) pairs"""
+    def ip(t):
+        return (32, True) if t[0] < 32 else t
+    a, b = ip(a), ip(b)
+    if a == b:
+        return a
+    if a[0] == b[0]:
+        return (a[0], False)
+    big, small = (a, b) if a[0] > b[0] else (b, a)
+    return big
+
+
+def texpr_type(e, fn, P):
+    """static C type (bits, signed) of expression e in function fn, or None when unknown"""
+    e0 = e
+    if is_e(e, "cast"):
+        t = _tyinfo(e[1])
+        return t if t else texpr_type(e[2], fn, P)
+    if is_e(e, "stmtexpr"):
+        return texpr_type(e[1], fn, P)
+    k = e[0] if isinstance(e, list) and e else None
+    if k == "int":
+        sp = (e[2] if len(e) > 2 else "") or ""
+        s = sp.lower().rstrip()
+        if s.endswith(("ull", "llu")):
+            return (64, False)
+        if s.endswith(("ul", "lu")):
+            return (64, False)
+        if s.endswith("ll") or s.endswith("l"):
+            return (64, True)
+        if s.endswith("u") and not s.startswith("0x") or (s.startswith("0x") and s.endswith("u")):
+            return (32, False)
+        if isinstance(e[1], int) and not (-(1 << 31) <= e[1] < (1 << 31)):
+            return (64, e[1] < (1 << 63))
+        return (32, True)
+    if k == "var":
+        t = fn.var_type(e[1]) if fn is not None else None
+        if t is None and P is not None and e[1] in P.globals:
+            t = P.globals[e[1]][0].get("type")
+        return _tyinfo(t)
+    if k == "fld":
+        if P is not None:
+            rec, _, fld = e[2].rpartition(".")
+            rd = P.records.get(rec)
+            if rd:
+                for n, t in rd["fields"]:
+                    if n == fld:
+                        return _tyinfo(t)
+        return None
+    if k == "idx" or k == "deref":
+        b = strip(e[1])
+        bt = None
+        if is_e(b, "var") and fn is not None:
+            bt = fn.var_type(b[1])
+        elif is_e(b, "fld") and P is not None:
+            rec, _, fld = b[2].rpartition(".")
+            rd = P.records.get(rec)
+            if rd:
+                for n, t in rd["fields"]:
+                    if n == fld:
+                        bt = t
+        if bt:
+            bt = bt.replace("const ", "").strip()
+            if bt.endswith("*"):
+                return _tyinfo(bt[:-1].strip())
+            if "[" in bt:
+                return _tyinfo(bt[:bt.index("[")].strip())
+        return None
+    if k == "bin":
+        op = e[1]
+        if op in ("<", "<=", ">", ">=", "==", "!=", "&&", "||"):
+            return (32, True)
+        a, b = texpr_type(e[2], fn, P), texpr_type(e[3], fn, P)
+        if op in ("<<", ">>"):
+            return ((32, True) if a and a[0] < 32 else a)
+        if a and b:
+            return _promote(a, b)
+        return a or b
+    if k == "un":
+        if e[1] == "!":
+            return (32, True)
+        a = texpr_type(e[2], fn, P)
+        return ((32, True) if a and a[0] < 32 else a)
+    if k == "cond":
+        a, b = texpr_type(e[2], fn, P), texpr_type(e[3], fn, P)
+        if a and b:
+            return _promote(a, b)
+        return a or b
+    if k == "call" and P is not None and e[1][0] == "fn" and e[1][1] in P.fns:
+        return _tyinfo(P.fns[e[1][1]].ret)
+    if k in ("asg", "incdec"):
+        return texpr_type(e[2] if k == "asg" else e[3], fn, P)
+    return None
+
+
+def tevalx(e, env, P, fn):
+    """evalx with C integer semantics where the static types are known: operands are converted to the promoted type before
+    arithmetic and comparison (so size_t subtraction wraps, signed/unsigned comparison converts), results wrap to the type."""
+    if is_e(e, "cast"):
+        v = tevalx(e[2], env, P, fn)
+        t = _tyinfo(e[1])
+        return _conv(v, t) if t else v
+    if is_e(e, "stmtexpr"):
+        return tevalx(e[1], env, P, fn)
+    k_ = key(e)
+    if k_ in env:
+        return env[k_]
+    t = e[0]
+    if t == "bin":
+        op = e[1]
+        if op == "&&":
+            return 1 if (tevalx(e[2], env, P, fn) and tevalx(e[3], env, P, fn)) else 0
+        if op == "||":
+            return 1 if (tevalx(e[2], env, P, fn) or tevalx(e[3], env, P, fn)) else 0
+        a, b = tevalx(e[2], env, P, fn), tevalx(e[3], env, P, fn)
+        ta, tb = texpr_type(e[2], fn, P), texpr_type(e[3], fn, P)
+        if op in ("<<", ">>"):
+            rt = (32, True) if ta and ta[0] < 32 else ta
+            if rt:
+                a = _conv(a, rt)
+            v = evalx(["bin", op, ["int", a], ["int", b]], {}, None)
+            return _conv(v, rt) if rt else v
+        if ta and tb:
+            ct = _promote(ta, tb)
+            a, b = _conv(a, ct), _conv(b, ct)
+            v = evalx(["bin", op, ["int", a], ["int", b]], {}, None)
+            if op in ("<", "<=", ">", ">=", "==", "!="):
+                return v
+            return _conv(v, ct)
+        return evalx(["bin", op, ["int", a], ["int", b]], {}, None)
+    if t == "un":
+        a = tevalx(e[2], env, P, fn)
+        ta = texpr_type(e[2], fn, P)
+        v = evalx(["un", e[1], ["int", a]], {}, None)
+        if e[1] in ("~", "-") and ta:
+            rt = (32, True) if ta[0] < 32 else ta
+            return _conv(v, rt)
+        return v
+    if t == "cond":
+        c = tevalx(e[1], env, P, fn)
+        v = tevalx(e[2] if c else e[3], env, P, fn)
+        ct = texpr_type(e, fn, P)
+        return _conv(v, ct) if ct else v
+    return evalx(e, env, P)
